@@ -53,6 +53,26 @@ theorem C04_marginal_conserved {ι : Type} (S : Finset ι) (W : ι → ℚ) (xs 
     (weights_ne_zero xs hg P (coords i) use (eps i) dt) (hp i hi)
     (axisLine_bc_noncorner xs P (coords i) use (eps i) dt (hnc i hi).1 (hnc i hi).2)
 
+/-- **Total mass of one kernel sweep** (any dimension, any axis; `S` = all lines, `W` = product of the other axes' trapezoid
+    weights): the total trapezoid mass changes exactly by −dt × Σ over lines of (weight × absorbing coefficient × new density) —
+    and by `C02_bc_corners_only` those coefficients are non-zero only at node 0 of the all-zero line and node N−1 of the all-one
+    line, i.e. at the two corners where a variant is lost or fixed everywhere. -/
+theorem C04_total_mass_sweep {ι : Type} (S : Finset ι) (W : ι → ℚ) (xs : Array ℚ) (hg : GridOk xs)
+    (P : AxisParams) (coords : ι → List ℚ) (use : Bool) (eps : ι → ℕ → ℚ) (dt : ℚ) (hdt : dt ≠ 0) (φ : ι → ℕ → ℚ)
+    (hp : ∀ i ∈ S, PivotsOk 1 0 ((axisLine xs P (coords i) use (eps i) dt).rows (φ i))) :
+    ∑ i ∈ S, W i * ∑ j ∈ range xs.size, (axisLine xs P (coords i) use (eps i) dt).w j
+          * stepFam (fun i => axisLine xs P (coords i) use (eps i) dt) φ i j
+      = ∑ i ∈ S, W i * ∑ j ∈ range xs.size, (axisLine xs P (coords i) use (eps i) dt).w j * φ i j
+        - dt * ∑ i ∈ S, W i * ∑ j ∈ range xs.size,
+            (axisLine xs P (coords i) use (eps i) dt).w j * (axisLine xs P (coords i) use (eps i) dt).bc j
+              * stepFam (fun i => axisLine xs P (coords i) use (eps i) dt) φ i j := by
+  rw [Finset.mul_sum, ← Finset.sum_sub_distrib]
+  refine Finset.sum_congr rfl (fun i hi => ?_)
+  have h := stepFam_line_mass (fun i => axisLine xs P (coords i) use (eps i) dt) φ i hdt
+    (weights_ne_zero xs hg P (coords i) use (eps i) dt) (hp i hi)
+  simp only [axisLine_N, axisLine_dt] at h
+  rw [h]; ring
+
 /-- a line on which some other population sits at an interior frequency (≠ 0 and ≠ 1) is not a corner line -/
 theorem C04_interior_not_corner (ys : List ℚ) (y : ℚ) (hy : y ∈ ys) (h0 : y ≠ 0) (h1 : y ≠ 1) :
     ys.all (· == 0) = false ∧ ys.all (· == 1) = false := by
